@@ -44,7 +44,7 @@ let small_dyadic (q : qc) : bool =
   let t = this q in
   let rec plen p = match p with XH -> 1 | XO p' | XI p' -> 1 + plen p' in
   let rec is_pow2 p = match p with XH -> true | XO p' -> is_pow2 p' | XI _ -> false in
-  is_pow2 t.qden && plen t.qden <= 13 && (match t.qnum with Z0 -> true | Zpos p | Zneg p -> plen p <= 24)
+  is_pow2 t.qden && plen t.qden <= 35 && (match t.qnum with Z0 -> true | Zpos p | Zneg p -> plen p <= 40)
 let exact_aff (a : aff) : bool =
   List.for_all (List.for_all small_dyadic) a.a_mat && List.for_all small_dyadic a.a_bias
 
@@ -178,6 +178,8 @@ let check (case : Sexp.t) : unit =
            | List [Atom "pt"; x; Atom c; raw; dist] ->
              let xv = vec_of x in
              let xs = string_of_vec xv in
+             let xsmall = List.for_all small_dyadic xv in
+             let exact = exact && xsmall and exact_b = exact_b && xsmall in
              (* contains *)
              (match p_contains a xv, c with
               | None, "panic" -> bump "points_malformed_both_reject"
